@@ -12,7 +12,7 @@ BUDGET = {"quick": 40, "thorough": 600}
 EVIDENCE = {
     "rule": "one producing application (generator or write()) with 2-40 writes of sizes below/at/above the mark, "
             "outbuf_high_watermark in {0,1,50,1000}, send_bytes in {1,9,1000}, socket buffer 40..65536, drain pattern "
-            "(eager, slow, stall-then-resume, stall forever, reset after n bytes), half the runs with the poll timeout "
+            "(eager, slow, stall-then-resume, stall forever, reset after n bytes, send() failing with a non-disconnect error from its n-th call on), half the runs with the poll timeout "
             "infinite, all scheduler arms; pending output is accounted externally (bytes handed over by the app minus "
             "bytes accepted by the socket); distinct = distinct history digest; non-trivial = the producer was parked "
             "on the watermark at least once",
@@ -42,9 +42,15 @@ def gen(W):
         sizes.append(max(1, W.choice([m // 2, m - 1, m, m + 1, 2 * m + 3, 5, 1, 3 * m + 7])))
     sc["sizes"] = sizes
     sc["sleep_at"] = {str(W.draw(n)): W.choice([0.0001, 0.005])} if W.chance(0.3) else {}
-    sc["drain"] = W.choice(["eager", "slow", "stall_resume", "stall_forever", "rst"])
+    sc["drain"] = W.choice(["eager", "slow", "stall_resume", "stall_forever", "rst", "send_error"])
     total = sum(sizes)
     sc["after_bytes"] = W.draw(total + 150)
+    # send_error: the n-th send() on the connection (and, when persistent, every later one) raises an error that
+    # is not a "peer is gone" code, whichever thread makes the call; the reader itself is eager
+    sc["fault_send"] = W.draw(14)
+    sc["fault_errno"] = W.choice(["ETIMEDOUT", "EHOSTUNREACH", "ENOBUFS", "EIO"])
+    sc["fault_persistent"] = W.chance(0.6)
+    sc["log_socket_errors"] = W.chance(0.6)
     sc["p_partial"] = W.choice([0.0, 0.5])
     sc["lookahead"] = W.choice([0, 1])
     sc["follow"] = W.chance(0.3)
@@ -58,7 +64,7 @@ def run_one(tapes, tier, scenario=None):
     res.scenario = sc
     knobs = dict(threads=1, outbuf_high_watermark=sc["mark"], send_bytes=sc["send_bytes"],
                  outbuf_overflow=sc["outbuf_overflow"], asyncore_use_poll=sc["use_poll"],
-                 channel_request_lookahead=sc["lookahead"])
+                 channel_request_lookahead=sc["lookahead"], log_socket_errors=sc.get("log_socket_errors", True))
     net = NetConfig(sendbuf_len=sc["sendbuf_len"], sndbuf_cap=sc["sndbuf_cap"], p_partial_send=sc["p_partial"])
     sim = Simulation(tapes, knobs=knobs, net=net, sched=sc["sched"], trace=sc["trace"],
                      infinite_poll=sc["infinite"], horizon=120.0)
@@ -112,6 +118,11 @@ def run_one(tapes, tier, scenario=None):
         steps += [("wait", ("bytes", sc["after_bytes"]), 0.5), ("mode", "stalled")]
     elif d == "rst":
         steps += [("wait", ("bytes", sc["after_bytes"]), 0.5), ("rst",)]
+    if d == "send_error":
+        import errno as _errno
+        code = getattr(_errno, sc.get("fault_errno", "ETIMEDOUT"))
+        for i in range(sc["fault_send"], sc["fault_send"] + (3000 if sc.get("fault_persistent") else 1)):
+            sim.add_fault(0, "send", i, code)
     sim.add_client(steps, cid=0)
     snap = {}
 
@@ -171,12 +182,12 @@ def run_one(tapes, tier, scenario=None):
             what = "response_incomplete"
         res.v("liveness", what + degenerate, "client drains everything (%s) but only %d of %d bytes were delivered; end=%s channel=%r threads=%r" % (
             d, len(wire), (head_len or 0) + len(body), k.end_reason, snap, sim.final_threads))
-    if d == "rst" and s is not None and rec is not None:
-        rst_seq = next((e[0] for e in k.history if e[2] == "c_rst"), None)
+    if d in ("rst", "send_error") and s is not None and rec is not None:
+        rst_seq = next((e[0] for e in k.history if e[2] == ("c_rst" if d == "rst" else "fault")), None)
         close_seq = s.close_log[0][0] if s.close_log else None
         if rst_seq is not None and not complete:
             if close_seq is None:
-                res.v("release", "never_torn_down" + degenerate, "client reset but the server never closed the connection (end=%s, channel %r)" % (k.end_reason, snap))
+                res.v("release", "never_torn_down" + degenerate, "client reset / send() failed but the server never closed the connection (end=%s, channel %r)" % (k.end_reason, snap))
             else:
                 later = [e for e in k.history if e[2] == "app" and e[3] == 0 and e[4] == 0 and e[5] in ("yield", "wrote") and e[0] > close_seq]
                 if len(later) > 1:
